@@ -24,6 +24,13 @@ RULE = (
     "every open-for-write; the file bytes must be the complete old or the complete new text. A class is (operation, "
     "slot shape, atom spelling, effect on the model) resp. (crash plan, outcome); distinct_nontrivial counts classes observed."
 )
+RULE += (
+    " Fault variants per scenario: crash before each mutating syscall, crash at the first Python line after each "
+    "rename/link/symlink returns, torn write at each open-for-write, and each write()/writelines() call on a file "
+    "opened for writing below the scratch root failing after half of its data with OSError(ENOSPC) resp. "
+    "KeyboardInterrupt (process alive, the code's own error handling runs; afterwards old-or-new, and a later "
+    "fault-free run must give the complete new state)."
+)
 ASSUMPTIONS = [
     "Excl: comment, blank and '@set' lines of an existing world file are not 'entries': flush() rewrites the file from the "
     "parsed atoms (documented: set items 'will be wiped on update'); they are in the initial files but their survival is not demanded",
@@ -237,7 +244,7 @@ def check_sweep(scr, fidx, op, only_plan=None):
         return [], {"sweep:operation-fails-without-fault": 1}, 0
     new_text = observe()
     viol, classes, n = [], {}, 0
-    for plan in sw.plans(events):
+    for plan in sw.plans(events, scr.nwrites):
         if only_plan is not None and list(plan) != list(only_plan):
             continue
         n += 1
@@ -253,10 +260,16 @@ def check_sweep(scr, fidx, op, only_plan=None):
             viol.append(
                 dict(desc, plan=list(plan), msg=f"world file {old_text!r}, {op[0]} {atom_text(*op[1:])} interrupted at {where}: file is {text!r}, neither the old text nor the new {new_text!r}"[:900])
             )
-        if status != "crashed":
+        if not sw.fired(status):
             viol.append(dict(desc, plan=list(plan), msg=f"engine: plan {plan} did not fire ({status})"))
-        ev = events[plan[1]][0] if plan[1] < len(events) else "end"
-        key = f"sweep:{plan[0]}@{ev}:{out}"
+        if plan[0] in sw.WRITE_FAULTS:
+            # the process survived the failed write: a later fault-free update must give the complete new text
+            sw.rerun(run)
+            text2 = observe()
+            if text2 != new_text:
+                out += "+recovery-bad"
+                viol.append(dict(desc, plan=list(plan), msg=f"world file {old_text!r}, {op[0]} {atom_text(*op[1:])}: after {where} a later fault-free update leaves {text2!r}, not the new {new_text!r}"[:900]))
+        key = f"sweep:{sw.plan_class(events, plan)}:{out}"
         classes[key] = classes.get(key, 0) + 1
     return viol, classes, n
 
